@@ -14,7 +14,7 @@ import (
 func init() {
 	register(&Prop{
 		ID:          "C13",
-		Explanation: "Decides the error discipline around the session store: every call site in production code of a store-family operation (SessionStore, persistence.Store, redis Client, Lock, SessionState lock helpers, redislock, go-redis commands, the ticket's save/load/clear function values, and every module function that returns such an error) is enumerated; where the enclosing function returns an error the store error is returned or turned into a non-nil error on every path on which it is not known to be nil (the lock retry loop and the refresh-then-validate policy are the two reviewed, structurally checked exceptions), elsewhere it is examined by a branch on every path; Manager.Save sets the ticket cookie only after saveSession returned nil; SignIn and OAuthCallback redirect only after SaveSession returned nil; the readiness endpoint writes 200 only after VerifyConnection returned nil and that error is passed up unchanged from Client.Ping; every Cipher.Decrypt slices its input only under a dominating length guard for the same bound. Added during the build: a failed or empty reload under the refresh lock ends the session (R6, shared with C12); sign-out answers success only after the delete succeeded (R7, shared with C11.R1); in store/persistence/encoding/encryption/middleware code a fallible call's pointer result is dereferenced only behind its err==nil edge (R8). Round 3: every VerifyConnection of a store with a connection returns the result of a probe made during that call (under R4); an error answer of a handler is final (R9). Round 5: a store or decoding function whose caller dereferences the result after checking only the error never returns (nil, nil) (R10). Round 7: request handling keeps no state of its own between requests — no store, map update, in-place builtin, atomic/sync.Map write or pointer-receiver library call (singleflight, caches) reached from ServeHTTP targets a package-level variable, an object built at start-up, or a constructor variable captured by the handler it returned, declared in the packages implementing this property (RS; a class-wide who-may-write rule with zero instances today: a correct memoisation would be reported until reviewed). The proxy's three store wrappers (ClearSessionCookie, SaveSession, LoadCookiedSession) hand back the result of the store call made on that path, on every path (R11); P11 under the panic-source scan. Round 8: the ping middleware, which runs before the readiness check, claims a request only on a set hit of its own escaped path or User-Agent, verbatim (R12); http.ErrNoCookie sentinel rule (R13, shared with C11.R11).",
+		Explanation: "Decides the error discipline around the session store: every call site in production code of a store-family operation (SessionStore, persistence.Store, redis Client, Lock, SessionState lock helpers, redislock, go-redis commands, the ticket's save/load/clear function values, and every module function that returns such an error) is enumerated; where the enclosing function returns an error the store error is returned or turned into a non-nil error on every path on which it is not known to be nil (the lock retry loop and the refresh-then-validate policy are the two reviewed, structurally checked exceptions), elsewhere it is examined by a branch on every path; Manager.Save sets the ticket cookie only after saveSession returned nil; SignIn and OAuthCallback redirect only after SaveSession returned nil; the readiness endpoint writes 200 only after VerifyConnection returned nil and that error is passed up unchanged from Client.Ping; every Cipher.Decrypt slices its input only under a dominating length guard for the same bound. Added during the build: a failed or empty reload under the refresh lock ends the session (R6, shared with C12); sign-out answers success only after the delete succeeded (R7, shared with C11.R1); in store/persistence/encoding/encryption/middleware code a fallible call's pointer result is dereferenced only behind its err==nil edge (R8). Round 3: every VerifyConnection of a store with a connection returns the result of a probe made during that call (under R4); an error answer of a handler is final (R9). Round 5: a store or decoding function whose caller dereferences the result after checking only the error never returns (nil, nil) (R10). Round 7: request handling keeps no state of its own between requests — no store, map update, in-place builtin, atomic/sync.Map write or pointer-receiver library call (singleflight, caches) reached from ServeHTTP targets a package-level variable, an object built at start-up, or a constructor variable captured by the handler it returned, declared in the packages implementing this property (RS; a class-wide who-may-write rule with zero instances today: a correct memoisation would be reported until reviewed). The proxy's three store wrappers (ClearSessionCookie, SaveSession, LoadCookiedSession) hand back the result of the store call made on that path, on every path (R11); P11 under the panic-source scan. Round 8: the ping middleware, which runs before the readiness check, claims a request only on a set hit of its own escaped path or User-Agent, verbatim (R12); http.ErrNoCookie sentinel rule (R13, shared with C11.R11). Round 8 (class-wide, P12): in the packages implementing this property every named error result that is used at all is examined — compared with nil, returned, stored or handed to a non-formatting function — unless the code validates the value result instead (RE; zero instances today).",
 		NotDecided:  "fault sequences (lost replies, pairs of faults), behaviour of msgpack/lz4 on corrupt bytes, time-outs.",
 		Run:         runC13,
 	})
@@ -109,6 +109,8 @@ func (f *storeFamily) name(cc *ssa.CallCommon) string {
 }
 
 func runC13(c *Ctx) {
+	c.R.Rule("RE-errors-examined", "in the packages implementing this property every named error result that is used at all is examined, or the value is validated instead (P12, class-wide, round 8)", 1)
+	runErrorsExamined(c, "RE-errors-examined", "pkg/sessions", "pkg/middleware")
 	c.R.Rule("RS-no-request-time-state", "request handling writes no state that outlives the request (package-level variables, objects built at start-up, constructor variables captured by handlers) declared in the packages implementing this property", 1)
 	runStateless(c, "RS-no-request-time-state", "pkg/middleware.storedSessionLoader", "pkg/sessions")
 	r := c.R
